@@ -4,15 +4,16 @@
 # a scratch copy of /repo with each of them applied.  Prints one line per item.
 export GOFLAGS=-mod=mod GOPROXY=off GOSUMDB=off GOTOOLCHAIN=local
 P=$1; cd /verif
-for N in 4 5 6; do
+SEEDS=${SEEDS:-4 5 6}; BENIGN=${BENIGN:-1 2}; TAG=${TAG:-r2}
+for N in $SEEDS; do
   [ -f /tmp/wt/$P/seeded_out/$N/patch.diff ] || continue
   [ -d seeded/$P-$N ] || tools/confirm_seed.sh $P $N 2>&1 | tail -2 | tr '\n' ' '
   echo
 done
-for N in 1 2; do
+for N in $BENIGN; do
   src=/tmp/wt/$P/benign_out/$N
   [ -f $src/patch.diff ] || continue
-  if grep -qs "r2:$P:$N" benign/*.txt; then continue; fi
+  if grep -qs "$TAG:$P:$N" benign/*.txt; then continue; fi
   W=$(mktemp -d /tmp/benchk.XXXX); rmdir $W
   git -C /repo worktree add -q --detach $W HEAD
   if (cd $W && git apply $src/patch.diff && go build ./... ); then
@@ -22,7 +23,7 @@ for N in 1 2; do
   case "$B" in *"37/37"*)
     k=1; while [ -f benign/$P-b$k.diff ]; do k=$((k+1)); done
     cp $src/patch.diff benign/$P-b$k.diff
-    { echo "r2:$P:$N  (sub-agent refactoring; baseline with it: $B)"; cat $src/notes.md; } > benign/$P-b$k.txt
+    { echo "$TAG:$P:$N  (sub-agent refactoring; baseline with it: $B)"; cat $src/notes.md; } > benign/$P-b$k.txt
     echo "benign $N -> benign/$P-b$k.diff ($B)";;
   *) echo "benign $N REJECTED: $B";;
   esac
@@ -37,6 +38,6 @@ run() { # name patch
   first=$(echo "$out" | grep "^VIOLATION" | sed 's/.*replays.[A-Z0-9]*.//; s/\.json.*//' | head -3 | tr '\n' ' ')
   echo "$1 violations=$n $first | $(echo "$out" | grep '^govc:' | sed 's/.*obligations/obligations/')"
 }
-for N in 4 5 6; do [ -d seeded/$P-$N ] && run "seed $P-$N" /verif/seeded/$P-$N/patch.diff; done
-for f in benign/$P-b*.txt; do grep -q "^r2:$P:" $f && run "benign $(basename $f .txt)" /verif/${f%.txt}.diff; done
+for N in $SEEDS; do [ -d seeded/$P-$N ] && run "seed $P-$N" /verif/seeded/$P-$N/patch.diff; done
+for f in benign/$P-b*.txt; do grep -q "^$TAG:$P:" $f && run "benign $(basename $f .txt)" /verif/${f%.txt}.diff; done
 rm -rf $S
